@@ -112,7 +112,8 @@ CHECKS["C01"] = dict(
          "Correspondence: random schemas x histories (assignment by dotted path and chained attributes of values, maps, configuration "
          "objects; load_tree; validate; reset; to_tree) with full-state comparison after every step, plus re-validation of every "
          "readable value by its own field, a mutation stream over every list/dict mutator, and a boundary sweep (every value derived from a field's declared bounds, exactly at and just beyond them, strings whose length changes under the declared transformations, through five routes) judged by a declarative reading of the declaration."
-         " Continuation (Props/C01b.lean): every reachable state satisfies the constraints its fields *declare* (Sat, written from the declaration, not through the validator) — soundness of validation composed with the invariant over histories.",
+         " Continuation (Props/C01b.lean): every reachable state satisfies the constraints its fields *declare* (Sat, written from the declaration, not through the validator) — soundness of validation composed with the invariant over histories."
+         " Props/C01c.lean (F75): validateC, the chain of a typed list / dict field whose own validator hands back a new container — what is held is a fixed point of the field's _validate whatever the validator returned; equal to validate for validators that return normal forms; the two validate methods are read whole from the source (Generated/ContainerShape.lean) and pinned by a decide obligation; extension classes written as an application writes them (harness/ext.py) drive the hooks with implementation-side oracles.",
     note=CFG_NOTE + " Values of AnyField / untyped containers are unconstrained. The table of inserting entry points of list/dict is trusted.",
     technique="Lean 4 proof (case analysis and induction over the operation model; decide over generated method sets) + model/implementation correspondence",
     design="6 C01")
@@ -226,6 +227,7 @@ CHECKS["C17"] = dict(
          "validation results after any operation, acceptable or not, including a half-finished extend, along whole histories "
          "(induction); rejected single-element insertions leave list and dict unchanged (C06). Correspondence three-way: the real proxy, "
          "a plain built-in replaying the history with field-validated arguments, and the model; result types of copy and + checked."
+         " An index assignment whose index names no item is the built-in's IndexError whatever the item (list_setidx_no_slot, F76); ListProxy.__setitem__, __copy__ and copy of both proxies are read whole from the source and pinned (setitem_and_copy_code_order, F72 / F76); user-written item / key / value fields whose normalisation is not idempotent, that map to None, and key fields that normalise are driven against the built-in replay (enumerated)."
          " Continuation (Props/C17b.lean): the typed dict holds only validation results after every operation, accepted or rejected, along whole histories (dict counterpart of list_inv), keys stay duplicate-free."
          " Props/C17c.lean (model Proxy/CopyDepth.lean): a copy of a typed list of lists is one level deep — it holds the same inner list objects, edits of an inner list show through the original and every copy, edits of one outer list are private to it; histories compared with real typed lists and built-in lists.",
     note="Cinco/Proxy/PyList.lean and the association-list dict are hand-written specifications of CPython's list/dict, validated "
